@@ -637,4 +637,765 @@ theorem normFields_second {rec : Rec} (hr : RecGood rec) (all : List Field) (out
         simp only [normFields, bind, Except.bind, hfs, hIH, pure, Except.pure, he']
         rw [h]
 
+
+/-! ### who owns a member of the concatenated output -/
+
+/-- part `d` may emit a member named `k` -/
+def claims (d : PartDesc) (k : String) : Prop := k ∈ d.names ∨ (d.ext = true ∧ isExtKey k = true)
+
+theorem partsOK_exclusive {d : PartDesc} {ds : List PartDesc} (hok : partsOK (d :: ds) = true) {k : String}
+    (h1 : claims d k) : ¬ ∃ d' ∈ ds, claims d' k := by
+  rintro ⟨d', hd', h2⟩
+  simp only [partsOK, Bool.and_eq_true, decide_eq_true_eq, List.flatMap_cons, List.all_append] at hok
+  obtain ⟨⟨hnd, hne⟩, hext⟩ := hok
+  have hdis := (List.nodup_append.mp hnd).2.2
+  have hmem : ∀ {k}, k ∈ d'.names → k ∈ ds.flatMap (·.names) := fun hk =>
+    List.mem_flatMap.mpr ⟨d', hd', hk⟩
+  rcases h1 with h1 | ⟨e1, x1⟩
+  · rcases h2 with h2 | ⟨_, x2⟩
+    · exact hdis k h1 k (hmem h2) rfl
+    · have := List.all_eq_true.mp hne.1 k h1
+      simp [x2] at this
+  · rcases h2 with h2 | ⟨e2, _⟩
+    · have := List.all_eq_true.mp hne.2 k (hmem h2)
+      simp [x1] at this
+    · simp only [List.filter_cons, e1, if_true, List.length_cons] at hext
+      have : 0 < (ds.filter (·.ext)).length := List.length_pos_of_mem (List.mem_filter.mpr ⟨hd', e2⟩)
+      omega
+
+inductive OwnAll (out : List (String × Json)) : List PartDesc → List (List (String × Json)) → Prop
+  | nil : OwnAll out [] []
+  | cons {d ds p ps} : Conf d p → (∀ m ∈ p, m ∈ out) → (∀ m ∈ out, claims d m.1 → m ∈ p) → OwnAll out ds ps →
+      OwnAll out (d :: ds) (p :: ps)
+
+theorem confAll_claims {ds : List PartDesc} {ps : List (List (String × Json))} (h : ConfAll ds ps) :
+    ∀ m ∈ ps.flatten, ∃ d ∈ ds, claims d m.1 := by
+  intro m hm
+  have : m.1 ∈ keysOf ps.flatten := by simp only [keysOf, List.mem_map]; exact ⟨m, hm, rfl⟩
+  rcases confAll_mem_keys h m.1 this with h1 | ⟨h1, d, hd, he⟩
+  · obtain ⟨d, hd, hk⟩ := List.mem_flatMap.mp h1
+    exact ⟨d, hd, .inl hk⟩
+  · exact ⟨d, hd, .inr ⟨he, h1⟩⟩
+
+theorem ownAll_of_confAll {ds : List PartDesc} {ps : List (List (String × Json))} (h : ConfAll ds ps) :
+    ∀ (out : List (String × Json)), partsOK ds = true → (∀ m ∈ ps.flatten, m ∈ out) →
+      (∀ m ∈ out, m ∈ ps.flatten ∨ ¬ ∃ d ∈ ds, claims d m.1) → OwnAll out ds ps := by
+  induction h with
+  | nil => intro out _ _ _; exact .nil
+  | @cons d ds p ps hc hrest ih =>
+    intro out hok hsub hcov
+    have hok' := partsOK_tail hok
+    refine .cons hc (fun m hm => hsub m (by simp [hm])) ?_ (ih out hok' (fun m hm => hsub m (by simp [hm])) ?_)
+    · intro m hm hcl
+      rcases hcov m hm with h1 | h1
+      · simp only [List.flatten_cons, List.mem_append] at h1
+        rcases h1 with h1 | h1
+        · exact h1
+        · exact absurd (confAll_claims hrest m h1) (partsOK_exclusive hok hcl)
+      · exact absurd ⟨d, by simp, hcl⟩ h1
+    · intro m hm
+      rcases hcov m hm with h1 | h1
+      · simp only [List.flatten_cons, List.mem_append] at h1
+        rcases h1 with h1 | h1
+        · right
+          have : claims d m.1 := by
+            have := hc.2 m.1 (by simp only [keysOf, List.mem_map]; exact ⟨m, h1, rfl⟩)
+            exact this
+          exact partsOK_exclusive hok this
+        · exact .inl h1
+      · right
+        rintro ⟨d', hd', hcl⟩
+        exact h1 ⟨d', by simp [hd'], hcl⟩
+
+/-- members of the output under a name that part `p` owns are looked up in `p` -/
+theorem lookupKey_owner {out p : List (String × Json)} {n : String} (hnd : (keysOf out).Nodup)
+    (hpnd : (keysOf p).Nodup) (hsub : ∀ m ∈ p, m ∈ out) (hown : ∀ m ∈ out, m.1 = n → m ∈ p) :
+    lookupKey out n = lookupKey p n := by
+  cases h1 : lookupKey out n with
+  | some v =>
+    have := hown _ (lookupKey_mem h1) rfl
+    exact (lookupKey_of_mem hpnd this).symm
+  | none =>
+    cases h2 : lookupKey p n with
+    | none => rfl
+    | some v =>
+      have := lookupKey_of_mem hnd (hsub _ (lookupKey_mem h2))
+      rw [h1] at this; simp at this
+
+/-! ### the generic map of the whole output -/
+
+mutual
+  theorem normAny_total : ∀ (j : Json), Clean j → ∃ j', normAny j = .ok j'
+    | .num n, h => by
+        have : n.natAbs ≤ floatExact := by simpa [Clean] using h
+        exact ⟨.num n, by simp [normAny, normFloat, this]⟩
+    | .arr xs, h => by
+        obtain ⟨ys, hys⟩ := normAnyList_total xs (by simpa [Clean] using h)
+        exact ⟨.arr ys, by simp [normAny, hys, bind, Except.bind, pure, Except.pure]⟩
+    | .obj ms, h => by
+        obtain ⟨ys, hys⟩ := normAnyMembers_total ms (by simpa [Clean] using h)
+        exact ⟨.obj ys, by simp [normAny, hys, bind, Except.bind, pure, Except.pure]⟩
+    | .null, _ => ⟨_, rfl⟩
+    | .bool _, _ => ⟨_, rfl⟩
+    | .str _, _ => ⟨_, rfl⟩
+  theorem normAnyList_total : ∀ (xs : List Json), CleanL xs → ∃ ys, normAnyList xs = .ok ys
+    | [], _ => ⟨[], rfl⟩
+    | x :: xs, h => by
+        have h' : Clean x ∧ CleanL xs := by simpa [CleanL] using h
+        obtain ⟨y, hy⟩ := normAny_total x h'.1
+        obtain ⟨ys, hys⟩ := normAnyList_total xs h'.2
+        exact ⟨y :: ys, by simp [normAnyList, hy, hys, bind, Except.bind, pure, Except.pure]⟩
+  theorem normAnyMembers_total : ∀ (ms : List (String × Json)), CleanM ms → ∃ ys, normAnyMembers ms = .ok ys
+    | [], _ => ⟨[], rfl⟩
+    | (k, v) :: rest, h => by
+        have h' : Clean v ∧ CleanM rest := by
+          simp only [CleanM] at h; exact ⟨h.2.2.2.1, h.2.2.2.2⟩
+        obtain ⟨w, hw⟩ := normAny_total v h'.1
+        obtain ⟨acc, hacc⟩ := normAnyMembers_total rest h'.2
+        exact ⟨insertKeep k w acc, by simp [normAnyMembers, hw, hacc, bind, Except.bind, pure, Except.pure]⟩
+end
+
+theorem mem_insertKeep_of_not_key {k : String} {v : Json} {acc : List (String × Json)} (h : k ∉ keysOf acc) :
+    ∀ m, m ∈ insertKeep k v acc ↔ m = (k, v) ∨ m ∈ acc := by
+  induction acc with
+  | nil => intro m; simp [insertKeep]
+  | cons b acc' ih =>
+    obtain ⟨l, w⟩ := b
+    simp only [keysOf, List.map_cons, List.mem_cons, not_or] at h
+    intro m
+    unfold insertKeep
+    split
+    · simp
+    · split
+      · rename_i heq; exact absurd heq h.1
+      · simp only [List.mem_cons, ih h.2 m]
+        constructor
+        · rintro (h1 | h1 | h1)
+          · exact .inr (.inl h1)
+          · exact .inl h1
+          · exact .inr (.inr h1)
+        · rintro (h1 | h1 | h1)
+          · exact .inr (.inl h1)
+          · exact .inl h1
+          · exact .inr (.inr h1)
+
+/-- the generic decode of an object without duplicate names: sorted, and member for member the `normAny` image -/
+theorem normAnyMembers_char : ∀ (ms d : List (String × Json)), (keysOf ms).Nodup → normAnyMembers ms = .ok d →
+    KeysSorted d ∧ (∀ k ∈ keysOf d, k ∈ keysOf ms) ∧
+      ∀ m, m ∈ d ↔ ∃ x ∈ ms, x.1 = m.1 ∧ normAny x.2 = .ok m.2 := by
+  intro ms
+  induction ms with
+  | nil =>
+    intro d _ h
+    simp [normAnyMembers, pure, Except.pure] at h; subst h
+    exact ⟨keysSorted_nil, by simp [keysOf], by simp⟩
+  | cons a rest ih =>
+    obtain ⟨k, v⟩ := a
+    intro d hnd h
+    simp only [keysOf, List.map_cons, List.nodup_cons] at hnd
+    simp only [normAnyMembers, bind, Except.bind] at h
+    split at h
+    · simp at h
+    · rename_i w hw
+      split at h
+      · simp at h
+      · rename_i acc hacc
+        simp only [pure, Except.pure, Except.ok.injEq] at h; subst h
+        have ⟨i1, i2, i3⟩ := ih acc hnd.2 hacc
+        have hk : k ∉ keysOf acc := fun hm => hnd.1 (i2 k hm)
+        refine ⟨insertKeep_sorted k w i1, ?_, ?_⟩
+        · intro k' hk'
+          have := keysOf_insertKeep_subset k w acc k' hk'
+          simp only [keysOf, List.map_cons, List.mem_cons] at this ⊢
+          rcases this with h1 | h1
+          · exact .inl h1
+          · exact .inr (i2 k' h1)
+        · intro m
+          rw [mem_insertKeep_of_not_key hk m, i3 m]
+          constructor
+          · rintro (h1 | ⟨x, hx, h1, h2⟩)
+            · subst h1; exact ⟨(k, v), by simp, rfl, hw⟩
+            · exact ⟨x, by simp [hx], h1, h2⟩
+          · rintro ⟨x, hx, h1, h2⟩
+            rcases List.mem_cons.mp hx with rfl | hx
+            · left
+              simp only at h1 h2
+              rw [hw] at h2
+              simp only [Except.ok.injEq] at h2
+              obtain ⟨mk, mv⟩ := m
+              simp only at h1 h2
+              rw [h1, h2]
+            · exact .inr ⟨x, hx, h1, h2⟩
+
+theorem keysSorted_pairwise {ms : List (String × Json)} (h : KeysSorted ms) :
+    ms.Pairwise (fun a b => a.1 < b.1) := by
+  simpa [KeysSorted, List.pairwise_map] using h
+
+/-- two sorted association lists with the same members are the same list -/
+theorem sorted_ext {a b : List (String × Json)} (ha : KeysSorted a) (hb : KeysSorted b)
+    (h : ∀ m, m ∈ a ↔ m ∈ b) : a = b := by
+  have nd : ∀ {l : List (String × Json)}, KeysSorted l → l.Nodup := fun hl =>
+    (keysSorted_pairwise hl).imp (fun {x y} hxy heq => by subst heq; exact String.lt_irrefl _ hxy)
+  have hp := (List.perm_ext_iff_of_nodup (nd ha) (nd hb)).mpr h
+  exact eq_of_perm_of_pairwise (fun x y h1 h2 => String.lt_asymm h1 h2)
+    (keysSorted_pairwise ha) (keysSorted_pairwise hb) hp
+
+
+/-! ### the parts of a concatenated kind, second pass -/
+
+theorem cleanM_names {out : List (String × Json)} (h : CleanM out) : ∀ m ∈ out, NameOK m.1 :=
+  fun m hm => (cleanM_iff.mp h m hm).1
+
+theorem cleanM_vals {out : List (String × Json)} (h : CleanM out) : ∀ m ∈ out, Clean m.2 ∧ m.2 ≠ .null :=
+  fun m hm => ⟨(cleanM_iff.mp h m hm).2.2.2, (cleanM_iff.mp h m hm).2.1⟩
+
+theorem mem_keysOf {ms : List (String × Json)} {m : String × Json} (h : m ∈ ms) : m.1 ∈ keysOf ms := by
+  simp only [keysOf, List.mem_map]; exact ⟨m, h, rfl⟩
+
+theorem normFields_second_part {rec : Rec} (hr : RecGood rec) {all fs : List Field}
+    (hkw : ∀ f ∈ all, f.jsonName ∈ keywordList) (hfs : ∀ f ∈ fs, f ∈ all)
+    (hnd : (fs.map (·.jsonName)).Nodup) {ms b out : List (String × Json)}
+    (h : normFields rec all fs ms = .ok b) (hout : (keysOf out).Nodup) (hclean : CleanM out)
+    (hbsub : ∀ m ∈ b, m ∈ out) (hown : ∀ m ∈ out, m.1 ∈ fs.map (·.jsonName) → m ∈ b) :
+    normFields rec all fs out = .ok b := by
+  have hbnd : (keysOf b).Nodup := hnd.sublist (normFields_nd hr.nd all fs ms b h).1
+  refine normFields_second hr all out fs ms b h hnd ?_ (fun m hm => cleanM_vals hclean m (hbsub m hm))
+  intro f hf
+  have hn : f.jsonName ∈ all.map (·.jsonName) := List.mem_map.mpr ⟨f, hfs f hf, rfl⟩
+  rw [fieldVals_eq hkw hn (cleanM_names hclean), filter_key_nodup _ hout]
+  congr 1
+  apply lookupKey_owner hout hbnd hbsub
+  intro m hm heq
+  exact hown m hm (by rw [heq]; exact List.mem_map.mpr ⟨f, hf, rfl⟩)
+
+theorem keysSorted_filter {d : List (String × Json)} (q : String × Json → Bool) (h : KeysSorted d) :
+    KeysSorted (d.filter q) := by
+  unfold KeysSorted at *
+  exact h.sublist ((List.filter_sublist (l := d)).map _)
+
+theorem genericFilter_second {out d b : List (String × Json)} (q : String → Bool) (hout : (keysOf out).Nodup)
+    (hd : normAnyMembers out = .ok d) (hbs : KeysSorted b) (hbg : GoAnyM b) (hbsub : ∀ m ∈ b, m ∈ out)
+    (hbq : ∀ m ∈ b, q m.1 = true) (hown : ∀ m ∈ out, q m.1 = true → m ∈ b) :
+    d.filter (fun m => q m.1) = b := by
+  have ⟨c1, _, c3⟩ := normAnyMembers_char out d hout hd
+  apply sorted_ext (keysSorted_filter _ c1) hbs
+  intro m
+  simp only [List.mem_filter, c3 m]
+  constructor
+  · rintro ⟨⟨x, hx, h1, h2⟩, hq⟩
+    have hxb := hown x hx (by rw [h1]; exact hq)
+    have := normAny_of_goAny x.2 (goAnyM_iff.mp hbg x hxb)
+    rw [this] at h2
+    simp only [Except.ok.injEq] at h2
+    have : m = x := by
+      obtain ⟨a, b'⟩ := m; obtain ⟨c, d'⟩ := x
+      simp only at h1 h2; rw [h1, h2]
+    rw [this]; exact hxb
+  · intro hm
+    exact ⟨⟨m, hbsub m hm, rfl, normAny_of_goAny m.2 (goAnyM_iff.mp hbg m hm)⟩, hbq m hm⟩
+
+theorem lookupKey_generic_some {out d : List (String × Json)} (hout : (keysOf out).Nodup)
+    (hd : normAnyMembers out = .ok d) {k : String} {v : Json} (hm : (k, v) ∈ out) (hv : normAny v = .ok v) :
+    lookupKey d k = some v := by
+  have ⟨c1, _, c3⟩ := normAnyMembers_char out d hout hd
+  exact lookupKey_of_mem (keysSorted_nodup c1) ((c3 (k, v)).mpr ⟨(k, v), hm, rfl, hv⟩)
+
+theorem lookupKey_generic_none {out d : List (String × Json)} (hout : (keysOf out).Nodup)
+    (hd : normAnyMembers out = .ok d) {k : String} (hk : k ∉ keysOf out) : lookupKey d k = none := by
+  have ⟨_, c2, _⟩ := normAnyMembers_char out d hout hd
+  exact lookupKey_none (fun h => hk (c2 k h))
+
+theorem genericMap_goAny {j : Json} {d : List (String × Json)} (h : genericMap j = .ok d) :
+    KeysSorted d ∧ GoAnyM d := by
+  cases j <;> simp [genericMap, pure, Except.pure, goError] at h
+  · subst h; exact ⟨keysSorted_nil, by simp [GoAnyM]⟩
+  · exact normAnyMembers_goAny _ _ h
+
+theorem goAnyM_filter {d : List (String × Json)} (q : String × Json → Bool) (h : GoAnyM d) : GoAnyM (d.filter q) :=
+  goAnyM_iff.mpr (fun m hm => goAnyM_iff.mp h m (List.mem_filter.mp hm).1)
+
+theorem normExtensions_second {j : Json} {b out : List (String × Json)} (h : normExtensions j = .ok b)
+    (hout : (keysOf out).Nodup) (hclean : CleanM out) (hbsub : ∀ m ∈ b, m ∈ out)
+    (hown : ∀ m ∈ out, isExtKey m.1 = true → m ∈ b) : normExtensions (.obj out) = .ok b := by
+  simp only [normExtensions, bind, Except.bind] at h
+  split at h
+  · simp at h
+  · rename_i d0 hd0
+    simp only [pure, Except.pure, Except.ok.injEq] at h
+    obtain ⟨d, hd⟩ := normAnyMembers_total out hclean
+    have ⟨g1, g2⟩ := genericMap_goAny hd0
+    have := genericFilter_second isExtKey hout hd (b := b) (by rw [← h]; exact keysSorted_filter _ g1)
+      (by rw [← h]; exact goAnyM_filter _ g2) hbsub
+      (by rw [← h]; intro m hm; exact (List.mem_filter.mp hm).2) hown
+    simp [normExtensions, genericMap, hd, bind, Except.bind, pure, Except.pure, this]
+
+theorem str_goAny_fixed (t : String) : normAny (.str t) = .ok (.str t) := rfl
+
+theorem refOfMap_second {strict : Bool} {d0 b out d : List (String × Json)} (h : refOfMap strict d0 = .ok b)
+    (hout : (keysOf out).Nodup) (hclean : CleanM out) (hd : normAnyMembers out = .ok d)
+    (hbsub : ∀ m ∈ b, m ∈ out) (hown : ∀ m ∈ out, m.1 = "$ref" → m ∈ b) : refOfMap strict d = .ok b := by
+  rcases refOfMap_shape h with rfl | ⟨t, rfl⟩
+  · have : "$ref" ∉ keysOf out := by
+      intro hk
+      simp only [keysOf, List.mem_map] at hk
+      obtain ⟨m, hm, heq⟩ := hk
+      have := hown m hm heq
+      simp at this
+    simp [refOfMap, lookupKey_generic_none hout hd this, pure, Except.pure]
+  · have hm := hbsub ("$ref", .str t) (by simp)
+    have hu : urlString t = .ok t := (cleanM_iff.mp hclean _ hm).2.2.1 (.inl rfl) t rfl
+    simp [refOfMap, lookupKey_generic_some hout hd hm (str_goAny_fixed t), hu, pure, Except.pure]
+
+theorem normRefable_second {j : Json} {b out : List (String × Json)} (h : normRefable j = .ok b)
+    (hout : (keysOf out).Nodup) (hclean : CleanM out) (hbsub : ∀ m ∈ b, m ∈ out)
+    (hown : ∀ m ∈ out, m.1 = "$ref" → m ∈ b) : normRefable (.obj out) = .ok b := by
+  simp only [normRefable, bind, Except.bind] at h
+  split at h
+  · simp at h
+  · obtain ⟨d, hd⟩ := normAnyMembers_total out hclean
+    have := refOfMap_second h hout hclean hd hbsub hown
+    simp [normRefable, genericMap, hd, bind, Except.bind, this]
+
+theorem lookupStruct_mem (n : String) : lookupStruct Gen.structs n = [] ∨ ∃ e ∈ Gen.structs, e.2 = lookupStruct Gen.structs n := by
+  unfold lookupStruct
+  cases hf : Gen.structs.find? (·.1 == n) with
+  | none => left; rfl
+  | some e => right; exact ⟨e, List.mem_of_find?_eq_some hf, rfl⟩
+
+theorem lookupStruct_keywords (n : String) : ∀ f ∈ visible (lookupStruct Gen.structs n), f.jsonName ∈ keywordList := by
+  intro f hf
+  rcases lookupStruct_mem n with h | ⟨e, he, h⟩
+  · rw [h] at hf; simp [visible] at hf
+  · unfold keywordList
+    refine List.mem_flatMap.mpr ⟨e, he, ?_⟩
+    rw [h]
+    exact List.mem_map.mpr ⟨f, hf, rfl⟩
+
+theorem normStruct_second {rec : Rec} (hr : RecGood rec) (hT : tablesNodup Gen.structs = true) (n : String)
+    {j : Json} {b out : List (String × Json)} (h : normStruct rec (lookupStruct Gen.structs n) j = .ok b)
+    (hout : (keysOf out).Nodup) (hclean : CleanM out) (hbsub : ∀ m ∈ b, m ∈ out)
+    (hown : ∀ m ∈ out, m.1 ∈ tableNames (lookupStruct Gen.structs n) → m ∈ b) :
+    normStruct rec (lookupStruct Gen.structs n) (.obj out) = .ok b := by
+  simp only [normStruct, bind, Except.bind] at h
+  split at h
+  · simp at h
+  · have := normFields_second_part hr (lookupStruct_keywords n) (fun f hf => hf) (lookupStruct_nodup hT n) h
+      hout hclean hbsub hown
+    simpa [normStruct, structMembers, bind, Except.bind, pure, Except.pure] using this
+
+
+theorem normOperationProps_second {rec : Rec} (hr : RecGood rec) (hT : tablesNodup Gen.structs = true)
+    {j : Json} {b out : List (String × Json)} (h : normOperationProps rec j = .ok b)
+    (hout : (keysOf out).Nodup) (hclean : CleanM out) (hbsub : ∀ m ∈ b, m ∈ out)
+    (hown : ∀ m ∈ out, m.1 ∈ tableNames (lookupStruct Gen.structs "OperationProps") → m ∈ b) :
+    normOperationProps rec (.obj out) = .ok b := by
+  have hn := lookupStruct_nodup hT "OperationProps"
+  have hkw : ∀ f ∈ tableOf "OperationProps", f.jsonName ∈ keywordList := lookupStruct_keywords "OperationProps"
+  simp only [normOperationProps, bind, Except.bind] at h
+  split at h
+  · simp at h
+  · rename_i ms _
+    split at h
+    · simp at h
+    · rename_i others hothers
+      have ⟨ho1, _⟩ := normFields_nd hr.nd _ _ _ _ hothers
+      have hsubl : ((tableOf "OperationProps").filter (·.jsonName != "security")).map (·.jsonName) |>.Sublist
+          (tableNames (lookupStruct Gen.structs "OperationProps")) := by
+        simp only [tableNames, tableOf]
+        exact (List.filter_sublist).map _
+      have hno : ∀ m ∈ others, m.1 ≠ "security" := by
+        intro m hm heq
+        have := ho1.subset (mem_keysOf hm)
+        simp only [List.mem_map, List.mem_filter] at this
+        obtain ⟨f, ⟨_, hf⟩, hfe⟩ := this
+        rw [heq] at hfe
+        simp [hfe] at hf
+      have hnames_no : ∀ k ∈ ((tableOf "OperationProps").filter (·.jsonName != "security")).map (·.jsonName),
+          k ≠ "security" := by
+        intro k hk heq
+        simp only [List.mem_map, List.mem_filter] at hk
+        obtain ⟨f, ⟨_, hf⟩, hfe⟩ := hk
+        rw [heq] at hfe
+        simp [hfe] at hf
+      -- the second pass of the `others`
+      have hothers2 : ∀ (sec : List (String × Json)), b = sec ++ others → (∀ m ∈ sec, m.1 = "security") →
+          normFields rec (tableOf "OperationProps") ((tableOf "OperationProps").filter (·.jsonName != "security")) out
+            = .ok others := by
+        intro sec hb hsec
+        refine normFields_second_part hr hkw (fun f hf => (List.mem_filter.mp hf).1) (hn.sublist hsubl) hothers
+          hout hclean (fun m hm => hbsub m (by rw [hb]; simp [hm])) ?_
+        intro m hm hk
+        have := hown m hm (hsubl.subset hk)
+        rw [hb] at this
+        rcases List.mem_append.mp this with h1 | h1
+        · exact absurd (hsec m h1) (hnames_no _ hk)
+        · exact h1
+      split at h
+      · rename_i f hf
+        have hfname : f.jsonName = "security" := by simpa using List.find?_some hf
+        have hfmem : f ∈ tableOf "OperationProps" := List.mem_of_find?_eq_some hf
+        split at h
+        · simp at h
+        · rename_i st hst
+          simp only [pure, Except.pure, Except.ok.injEq] at h
+          have hvals : fieldVals (tableOf "OperationProps") f.jsonName out = (lookupKey out "security").toList := by
+            rw [fieldVals_eq hkw (List.mem_map.mpr ⟨f, hfmem, rfl⟩) (cleanM_names hclean), filter_key_nodup _ hout,
+              hfname]
+          cases st with
+          | none =>
+            simp only [List.nil_append] at h
+            have ho2 := hothers2 [] (by simpa using h.symm) (by simp)
+            have hnokey : "security" ∉ keysOf out := by
+              intro hk
+              simp only [keysOf, List.mem_map] at hk
+              obtain ⟨m, hm, heq⟩ := hk
+              have hmb := hown m hm (by
+                rw [heq, ← hfname]; exact List.mem_map.mpr ⟨f, hfmem, rfl⟩)
+              rw [← h] at hmb
+              exact hno m hmb heq
+            have hst2 : fieldState rec (tableOf "OperationProps") f out = .ok none := by
+              unfold fieldState
+              rw [hvals, lookupKey_none hnokey]
+              rfl
+            simp only [normOperationProps, structMembers, bind, Except.bind, pure, Except.pure, ho2, hf, hst2]
+            rw [← h]; rfl
+          | some v =>
+            have hb : b = [("security", v)] ++ others := by simpa using h.symm
+            have ho2 := hothers2 [("security", v)] hb (by simp)
+            have hmem : (("security", v) : String × Json) ∈ out := hbsub _ (by rw [hb]; simp)
+            have ⟨hcv, hnv⟩ := cleanM_vals hclean _ hmem
+            have hst2 : fieldState rec (tableOf "OperationProps") f out = .ok (some v) := by
+              unfold fieldState
+              rw [hvals, lookupKey_of_mem hout hmem]
+              exact decodeOne hnv (stImg_fixed hr (fieldState_img _ f ms _ hst) hcv hnv)
+            simp only [normOperationProps, structMembers, bind, Except.bind, pure, Except.pure, ho2, hf, hst2]
+            rw [hb]
+      · simp only [pure, Except.pure, Except.ok.injEq, List.nil_append] at h
+        have ho2 := hothers2 [] (by simpa using h.symm) (by simp)
+        rename_i hf
+        simp only [normOperationProps, structMembers, bind, Except.bind, pure, Except.pure, ho2, hf]
+        rw [← h]; rfl
+
+/-- every part of a regular kind re-reads the concatenated output to itself -/
+theorem normPart_second {rec : Rec} (hr : RecGood rec) (hT : tablesNodup Gen.structs = true) (p : String)
+    {j : Json} {b out : List (String × Json)} (h : normPart rec p j = .ok b)
+    (hout : (keysOf out).Nodup) (hclean : CleanM out) (hbsub : ∀ m ∈ b, m ∈ out)
+    (hown : ∀ m ∈ out, claims (descOf p) m.1 → m ∈ b) : normPart rec p (.obj out) = .ok b := by
+  unfold normPart at h ⊢
+  unfold descOf at hown
+  split at h
+  · rename_i hp
+    simp only [hp, if_true] at hown ⊢
+    exact normExtensions_second h hout hclean hbsub (fun m hm hx => hown m hm (.inr ⟨rfl, hx⟩))
+  · rename_i hp1
+    split at h
+    · rename_i hp
+      simp only [hp1, hp, if_true] at hown ⊢
+      exact normRefable_second h hout hclean hbsub (fun m hm hx => hown m hm (.inl (by simp [hx])))
+    · rename_i hp2
+      split at h
+      · rename_i hp
+        have : p = "OperationProps" := by simpa using hp
+        subst this
+        simp only [hp1, hp2, if_false, if_true] at hown ⊢
+        exact normOperationProps_second hr hT h hout hclean hbsub (fun m hm hx => hown m hm (.inl hx))
+      · rename_i hp3
+        simp only [hp1, hp2, hp3, if_false] at hown ⊢
+        exact normStruct_second hr hT p h hout hclean hbsub (fun m hm hx => hown m hm (.inl hx))
+
+theorem normParts_second {rec : Rec} (hr : RecGood rec) (hT : tablesNodup Gen.structs = true) (j : Json)
+    {out : List (String × Json)} (hout : (keysOf out).Nodup) (hclean : CleanM out) :
+    ∀ (ps : List String) (bs : List (List (String × Json))), normParts rec j ps = .ok bs →
+      OwnAll out (ps.map descOf) bs → normParts rec (.obj out) ps = .ok bs := by
+  intro ps
+  induction ps with
+  | nil => intro bs h _; simpa [normParts] using h
+  | cons p rest ih =>
+    intro bs h hown
+    simp only [normParts, bind, Except.bind] at h
+    split at h
+    · simp at h
+    · rename_i b hb
+      split at h
+      · simp at h
+      · rename_i bs' hbs'
+        simp only [pure, Except.pure, Except.ok.injEq] at h; subst h
+        cases hown with
+        | cons _ hsub hcl hrest =>
+          have h1 := normPart_second hr hT p hb hout hclean hsub hcl
+          have h2 := ih bs' hbs' hrest
+          simp [normParts, h1, h2, bind, Except.bind, pure, Except.pure]
+
+
+/-! ### the regular kinds -/
+
+theorem clean_concat {ps : List (List (String × Json))} (h : Clean (concatMembers ps)) : CleanM ps.flatten := by
+  rw [concatMembers_eq] at h; simpa [Clean] using h
+
+/-- parts of a regular kind that are decoded but never encoded (the tables have none) -/
+def deadTargets (ki : KindInfo) : List String := ki.unmarshalTargets.filter fun p => !ki.marshalParts.contains p
+
+theorem normConcatKind_second {rec : Rec} (hr : RecGood rec) (hT : tablesNodup Gen.structs = true) (ki : KindInfo)
+    (hk : partsOK ((liveParts ki).map descOf) = true) (hdead : deadTargets ki = [])
+    {j r : Json} (h : normConcatKind rec ki j = .ok r) (hc : Clean r) : normConcatKind rec ki r = .ok r := by
+  simp only [normConcatKind, bind, Except.bind] at h
+  split at h
+  · simp at h
+  · split at h
+    · simp at h
+    · rename_i bs hbs
+      split at h
+      · simp at h
+      · rename_i zs hzs
+        simp only [pure, Except.pure, Except.ok.injEq] at h; subst h
+        have ⟨c1, _⟩ := normParts_conf hr.nd hT j _ bs hbs
+        have hout := confAll_nodup c1 hk
+        have hclean := clean_concat hc
+        have hown := ownAll_of_confAll c1 bs.flatten hk (fun m hm => hm) (fun m hm => .inl hm)
+        have h2 := normParts_second hr hT j hout hclean _ bs hbs hown
+        have hd : ki.unmarshalTargets.filter (fun p => !ki.marshalParts.contains p) = [] := hdead
+        rw [concatMembers_eq]
+        simp only [normConcatKind, bind, Except.bind, hd, normParts, pure, Except.pure, h2, hzs]
+        rw [concatMembers_eq]
+
+theorem normReflect_second {rec : Rec} (hr : RecGood rec) (hT : tablesNodup Gen.structs = true) (n : String)
+    {j : Json} {ms : List (String × Json)} (h : normStruct rec (lookupStruct Gen.structs n) j = .ok ms)
+    (hc : Clean (.obj ms)) : normStruct rec (lookupStruct Gen.structs n) (.obj ms) = .ok ms := by
+  have ⟨h1, _⟩ := normStruct_nd hr.nd _ j ms h
+  exact normStruct_second hr hT n h ((lookupStruct_nodup hT n).sublist h1) (by simpa [Clean] using hc)
+    (fun m hm => hm) (fun m hm _ => hm)
+
+
+/-! ### Schema -/
+
+theorem schemaURLOfMap_shape' {d out : List (String × Json)} (h : schemaURLOfMap d = .ok out) :
+    out = [] ∨ ∃ t, t ≠ "" ∧ out = [("$schema", .str t)] := by
+  unfold schemaURLOfMap at h
+  split at h
+  · split at h
+    · simp only [pure, Except.pure, Except.ok.injEq] at h
+      split at h
+      · exact .inl h.symm
+      · rename_i hne; exact .inr ⟨_, by simpa using hne, h.symm⟩
+    · simp only [pure, Except.pure, Except.ok.injEq] at h; exact .inl h.symm
+    · simp [outOfModel] at h
+  · simp only [pure, Except.pure, Except.ok.injEq] at h; exact .inl h.symm
+
+theorem schemaURLOfMap_second {d0 b out d : List (String × Json)} (h : schemaURLOfMap d0 = .ok b)
+    (hout : (keysOf out).Nodup) (hclean : CleanM out) (hd : normAnyMembers out = .ok d)
+    (hbsub : ∀ m ∈ b, m ∈ out) (hown : ∀ m ∈ out, m.1 = "$schema" → m ∈ b) : schemaURLOfMap d = .ok b := by
+  rcases schemaURLOfMap_shape' h with rfl | ⟨t, hne, rfl⟩
+  · have : "$schema" ∉ keysOf out := by
+      intro hk
+      simp only [keysOf, List.mem_map] at hk
+      obtain ⟨m, hm, heq⟩ := hk
+      have := hown m hm heq
+      simp at this
+    simp [schemaURLOfMap, lookupKey_generic_none hout hd this, pure, Except.pure]
+  · have hm := hbsub ("$schema", .str t) (by simp)
+    have hu : urlString t = .ok t := (cleanM_iff.mp hclean _ hm).2.2.1 (.inr rfl) t rfl
+    simp [schemaURLOfMap, lookupKey_generic_some hout hd hm (str_goAny_fixed t), hu, pure, Except.pure, hne]
+
+/-- "not one of the names `Schema.UnmarshalJSON` deletes from the generic map" -/
+def schemaExtra (k : String) : Bool := !(k == "$ref" || k == "$schema" || schemaKnownNames.contains k)
+
+theorem schemaDescs_claims {k : String} (h : ∃ d ∈ schemaDescs, claims d k) :
+    schemaExtra k = false ∨ isExtKey k = true := by
+  obtain ⟨d, hd, hc⟩ := h
+  simp only [schemaDescs, List.mem_cons, List.not_mem_nil, or_false] at hd
+  have hknown : ∀ {k}, (k ∈ tableNames (lookupStruct Gen.structs "SchemaProps") ∨
+      k ∈ tableNames (lookupStruct Gen.structs "SwaggerSchemaProps")) → schemaExtra k = false := by
+    intro k hk
+    have : schemaKnownNames.contains k = true := by
+      rw [schemaKnown_eq]; simpa using hk
+    simp only [schemaExtra, this, Bool.or_true, Bool.not_true]
+  rcases hd with rfl | rfl | rfl | rfl | rfl
+  · rcases hc with hc | ⟨he, _⟩
+    · exact .inl (hknown (.inl hc))
+    · simp at he
+  · rcases hc with hc | ⟨_, hx⟩
+    · simp at hc
+    · exact .inr hx
+  · rcases hc with hc | ⟨he, _⟩
+    · simp only [List.mem_cons, List.not_mem_nil, or_false] at hc; left; simp [schemaExtra, hc]
+    · simp at he
+  · rcases hc with hc | ⟨he, _⟩
+    · simp only [List.mem_cons, List.not_mem_nil, or_false] at hc; left; simp [schemaExtra, hc]
+    · simp at he
+  · rcases hc with hc | ⟨he, _⟩
+    · exact .inl (hknown (.inr hc))
+    · simp at he
+
+theorem normSchema_isObj {rec : Rec} {j r : Json} (h : normSchema rec j = .ok r) : ∃ ms, r = .obj ms := by
+  cases j with
+  | null => simp [normSchema, pure, Except.pure] at h; exact ⟨[], h.symm⟩
+  | bool _ => simp [normSchema, goError] at h
+  | num _ => simp [normSchema, goError] at h
+  | str _ => simp [normSchema, goError] at h
+  | arr _ => simp [normSchema, goError] at h
+  | obj ms =>
+    simp only [normSchema, bind, Except.bind] at h
+    repeat (split at h; (· simp at h))
+    simp only [pure, Except.pure, Except.ok.injEq] at h
+    rw [concatMembers_eq] at h
+    exact ⟨_, h.symm⟩
+
+theorem normFields_nil {rec : Rec} (all : List Field) : ∀ (fs : List Field), (∀ f ∈ fs, f.omitEmpty = true) →
+    normFields rec all fs [] = .ok [] := by
+  intro fs
+  induction fs with
+  | nil => intro _; rfl
+  | cons f rest ih =>
+    intro h
+    have h1 : f.omitEmpty = true := h f (by simp)
+    simp [normFields, fieldState, fieldVals, decodeAll, ih (fun g hg => h g (by simp [hg])), encodeField, h1,
+      bind, Except.bind, pure, Except.pure]
+
+/-- side condition on the GENERATED tables: an empty schema prints as `{}` (every field is `omitempty`) -/
+def schemaAllOmit : Bool :=
+  (tableOf "SchemaProps").all (·.omitEmpty) && (tableOf "SwaggerSchemaProps").all (·.omitEmpty)
+
+theorem normSchema_eval {rec : Rec} {out b1 b2 b3 b4 b5 b6 d : List (String × Json)}
+    (h1 : normFields rec (tableOf "SchemaProps" ++ tableOf "SwaggerSchemaProps") (tableOf "SchemaProps") out = .ok b1)
+    (h5 : normFields rec (tableOf "SchemaProps" ++ tableOf "SwaggerSchemaProps") (tableOf "SwaggerSchemaProps") out = .ok b5)
+    (hd : normAnyMembers out = .ok d) (h3 : refOfMap false d = .ok b3) (h4 : schemaURLOfMap d = .ok b4)
+    (h2 : d.filter (fun m => isExtKey m.1 && schemaExtra m.1) = b2)
+    (h6 : d.filter (fun m => !isExtKey m.1 && schemaExtra m.1) = b6) :
+    normSchema rec (.obj out) = .ok (concatMembers [b1, b2, b3, b4, b5, b6]) := by
+  simp only [normSchema, bind, Except.bind, h1, h5, hd, h3, h4, pure, Except.pure, List.filter_filter]
+  have e2 : (d.filter fun a => isExtKey a.1 && !(a.1 == "$ref" || a.1 == "$schema" || schemaKnownNames.contains a.1)) = b2 := h2
+  have e6 : (d.filter fun a => !isExtKey a.1 && !(a.1 == "$ref" || a.1 == "$schema" || schemaKnownNames.contains a.1)) = b6 := h6
+  rw [e2, e6]
+
+theorem normSchema_second {rec : Rec} (hr : RecGood rec) (hT : tablesNodup Gen.structs = true)
+    (hk : partsOK schemaDescs = true) (hom : schemaAllOmit = true) {j r : Json} (h : normSchema rec j = .ok r) (hc : Clean r) :
+    normSchema rec r = .ok r := by
+  cases j with
+  | null =>
+    simp [normSchema, pure, Except.pure] at h; subst h
+    simp only [schemaAllOmit, Bool.and_eq_true, List.all_eq_true] at hom
+    simp [normSchema, normFields_nil _ _ hom.1, normFields_nil _ _ hom.2, normAnyMembers, refOfMap, schemaURLOfMap,
+      lookupKey, bind, Except.bind, pure, Except.pure, concatMembers, concatJSON]
+  | bool _ => simp [normSchema, goError] at h
+  | num _ => simp [normSchema, goError] at h
+  | str _ => simp [normSchema, goError] at h
+  | arr _ => simp [normSchema, goError] at h
+  | obj ms =>
+    have h0 := h
+    simp only [normSchema, bind, Except.bind] at h
+    split at h
+    · simp at h
+    · rename_i b1 hb1
+      split at h
+      · simp at h
+      · rename_i b5 hb5
+        split at h
+        · simp at h
+        · rename_i d0 hd0
+          split at h
+          · simp at h
+          · rename_i b3 hb3
+            split at h
+            · simp at h
+            · rename_i b4 hb4
+              simp only [pure, Except.pure, Except.ok.injEq] at h
+              have ⟨hds, hdg⟩ := normAnyMembers_goAny _ _ hd0
+              have hlam : (fun m : String × Json => !(m.1 == "$ref" || m.1 == "$schema" || schemaKnownNames.contains m.1))
+                  = fun m => schemaExtra m.1 := rfl
+              rw [hlam] at h
+              generalize hrest : d0.filter (fun m => schemaExtra m.1) = rest at h
+              have hrs : KeysSorted rest := by rw [← hrest]; exact keysSorted_filter _ hds
+              have hrg : GoAnyM rest := by rw [← hrest]; exact goAnyM_filter _ hdg
+              have hrx : ∀ m ∈ rest, schemaExtra m.1 = true := by
+                rw [← hrest]; intro m hm; exact (List.mem_filter.mp hm).2
+              generalize hb2 : rest.filter (fun m => isExtKey m.1) = b2 at h
+              generalize hb6 : rest.filter (fun m => !isExtKey m.1) = b6 at h
+              -- the output and who owns what in it
+              have hnd := normSchema_nd hr.nd hT hk h0
+              subst h
+              rw [concatMembers_eq] at hnd hc ⊢
+              have hsplit : [b1, b2, b3, b4, b5, b6].flatten = [b1, b2, b3, b4, b5].flatten ++ b6 := by
+                simp [List.flatten_cons]
+              generalize hout_def : [b1, b2, b3, b4, b5, b6].flatten = out at hnd hc ⊢
+              rw [hout_def] at hsplit
+              have hout : (keysOf out).Nodup := by simpa [ND, keysOf] using hnd.1
+              have hclean : CleanM out := by simpa [Clean] using hc
+              have c1 := normFields_conf hr.nd (names := tableNames (lookupStruct Gen.structs "SchemaProps"))
+                (by rw [tableOf_names]; exact List.Sublist.refl _) (lookupStruct_nodup hT _) hb1
+              have c5 := normFields_conf hr.nd (names := tableNames (lookupStruct Gen.structs "SwaggerSchemaProps"))
+                (by rw [tableOf_names]; exact List.Sublist.refl _) (lookupStruct_nodup hT _) hb5
+              have c3 := conf_small (refOfMap_shape hb3)
+              have c4 := conf_small (schemaURLOfMap_shape hb4)
+              have c2 : Conf ⟨[], true⟩ b2 := by
+                rw [← hb2]
+                refine ⟨keysOf_filter_nodup _ (keysSorted_nodup hrs), ?_⟩
+                intro k hk'
+                simp only [keysOf, List.mem_map, List.mem_filter] at hk'
+                obtain ⟨m, ⟨_, hm⟩, rfl⟩ := hk'
+                exact .inr ⟨rfl, hm⟩
+              have call : ConfAll schemaDescs [b1, b2, b3, b4, b5] :=
+                .cons c1.1 (.cons c2 (.cons c3.1 (.cons c4.1 (.cons c5.1 .nil))))
+              have hb6x : ∀ m ∈ b6, schemaExtra m.1 = true ∧ isExtKey m.1 = false := by
+                rw [← hb6]; intro m hm
+                have := List.mem_filter.mp hm
+                exact ⟨hrx m this.1, by simpa using this.2⟩
+              have hown := ownAll_of_confAll call out hk (fun m hm => by rw [hsplit]; exact List.mem_append.mpr (.inl hm)) (by
+                intro m hm
+                rw [hsplit] at hm
+                rcases List.mem_append.mp hm with h1 | h1
+                · exact .inl h1
+                · right
+                  intro hcl
+                  have ⟨x1, x2⟩ := hb6x m h1
+                  rcases schemaDescs_claims hcl with h2 | h2
+                  · rw [x1] at h2; simp at h2
+                  · rw [x2] at h2; simp at h2)
+              have hown6 : ∀ m ∈ out, schemaExtra m.1 = true → isExtKey m.1 = false → m ∈ b6 := by
+                intro m hm x1 x2
+                rw [hsplit] at hm
+                rcases List.mem_append.mp hm with h1 | h1
+                · rcases schemaDescs_claims (confAll_claims call m h1) with h2 | h2
+                  · rw [x1] at h2; simp at h2
+                  · rw [x2] at h2; simp at h2
+                · exact h1
+              have hsub6 : ∀ m ∈ b6, m ∈ out := fun m hm => by rw [hsplit]; exact List.mem_append.mpr (.inr hm)
+              cases hown with
+              | cons _ s1 o1 hown =>
+              cases hown with
+              | cons _ s2 o2 hown =>
+              cases hown with
+              | cons _ s3 o3 hown =>
+              cases hown with
+              | cons _ s4 o4 hown =>
+              cases hown with
+              | cons _ s5 o5 _ =>
+              have hkw : ∀ f ∈ tableOf "SchemaProps" ++ tableOf "SwaggerSchemaProps", f.jsonName ∈ keywordList := by
+                intro f hf
+                rcases List.mem_append.mp hf with h1 | h1
+                · exact lookupStruct_keywords "SchemaProps" f h1
+                · exact lookupStruct_keywords "SwaggerSchemaProps" f h1
+              have h1 := normFields_second_part hr hkw (fun f hf => List.mem_append.mpr (.inl hf))
+                (lookupStruct_nodup hT "SchemaProps") hb1 hout hclean s1 (fun m hm hx => o1 m hm (.inl hx))
+              have h5 := normFields_second_part hr hkw (fun f hf => List.mem_append.mpr (.inr hf))
+                (lookupStruct_nodup hT "SwaggerSchemaProps") hb5 hout hclean s5 (fun m hm hx => o5 m hm (.inl hx))
+              obtain ⟨d, hd⟩ := normAnyMembers_total out hclean
+              have h3 := refOfMap_second hb3 hout hclean hd s3 (fun m hm hx => o3 m hm (.inl (by simp [hx])))
+              have h4 := schemaURLOfMap_second hb4 hout hclean hd s4 (fun m hm hx => o4 m hm (.inl (by simp [hx])))
+              have h2 := genericFilter_second (fun k => isExtKey k && schemaExtra k) hout hd (b := b2)
+                (by rw [← hb2]; exact keysSorted_filter _ hrs) (by rw [← hb2]; exact goAnyM_filter _ hrg) s2
+                (by
+                  rw [← hb2]; intro m hm
+                  have := List.mem_filter.mp hm
+                  simp [this.2, hrx m this.1])
+                (fun m hm hq => o2 m hm (.inr ⟨rfl, by
+                  simp only [Bool.and_eq_true] at hq; exact hq.1⟩))
+              have h6 := genericFilter_second (fun k => !isExtKey k && schemaExtra k) hout hd (b := b6)
+                (by rw [← hb6]; exact keysSorted_filter _ hrs) (by rw [← hb6]; exact goAnyM_filter _ hrg) hsub6
+                (by intro m hm; have := hb6x m hm; simp [this.1, this.2])
+                (fun m hm hq => by
+                  simp only [Bool.and_eq_true, Bool.not_eq_true'] at hq
+                  exact hown6 m hm hq.2 hq.1)
+              have := normSchema_eval h1 h5 hd h3 h4 h2 h6
+              rw [this, concatMembers_eq, hout_def]
+
 end SpecModel.Codec
